@@ -359,7 +359,7 @@ def continuous(prog: Program, rep: Report) -> None:
     for n in ast.walk(tick_scope):
         if isinstance(n, ast.Call) and unparse(n.func) == "np.arange":
             ticks = n
-    okt = ticks is not None and len(ticks.args) == 3 and unparse(ticks.args[0]) in ("df.index.unique()[0]", "self._df.index.unique()[0]") and unparse(ticks.args[1]) == "self.stop_time" and "freq" in unparse(ticks.args[2])
+    okt = ticks is not None and len(ticks.args) == 3 and unparse(ticks.args[0]) in ("df.index.unique()[0]", "self._df.index.unique()[0]", "df.index[0]", "self._df.index[0]") and unparse(ticks.args[1]) == "self.stop_time" and "freq" in unparse(ticks.args[2])
     rep.check(rule, dz.qual, "ticks = arange(first file time, stop, signed frequency): anchored at the first file time, stop exclusive", okt, what_bad=f"ticks = {unparse(ticks) if ticks is not None else None}", what_ok="arange(file_times[0], stop_time, freq)", loc=dz.loc())
     joins = [c for n_, c in chain if n_ == "join"]
     okb = False
